@@ -5,7 +5,7 @@ HERE = os.path.dirname(os.path.dirname(os.path.abspath(__file__)))
 P = {k: v for k, v in json.load(open(os.path.join(HERE, 'contracts', 'properties.json'))).items() if not k.startswith('_')}
 TEXT = {
  'C01': 'Verus proves, for every configuration, size, engine and history, that decode returns exactly the reference erasure decoding dec_*_ref of what was given (R-layer). That dec_*_ref inverts the code (M3) is not mechanised: bounded native enumeration of all sufficient subsets.',
- 'C02': 'Verus proves encode == enc_high_ref / enc_low_ref / rule-selected (FFT/IFFT formula over GF(2^16) from first principles) for all inputs and histories. Equality of that formula with the scaled Cauchy matrix (M2) is bounded: independent closed-form oracle.',
+ 'C02': 'Verus proves encode == enc_high_ref / enc_low_ref / rule-selected (FFT/IFFT formula over GF(2^16) from first principles) for all inputs and histories, and that these reference encoders equal the closed-form scaled Cauchy matrix of the property statement slot by slot (M2: LCH basis = polynomials, interpolation uniqueness, Lagrange form on aligned cosets). The native closed-form oracle remains as an independent cross-check.',
  'C03': 'One Engine trait contract against one reference spec; every engine implementation (Naive, NoSimd, Ssse3, Avx2, DefaultEngine - schedules and leaf kernels) is verified against it, so they agree wherever the contract defines the output. The x86 intrinsics are an assumed byte-wise model, cross-checked natively on all (symbol, log_m) pairs; Neon is not reachable on this host.',
  'C04': 'Byte placement (insert / undo / accessors) and slot independence (truncation commutes with every transform) are proved; sizes are unbounded in the proof.',
  'C05': 'Every result is proved equal to a function of the configuration and the shards added this round (orig_sv / received positions only); stale work memory is universally quantified in the proof.',
